@@ -436,9 +436,12 @@ def signature(sp, cid, payload, exp, obs):
         elif region == "post":
             key = "A|pl=%s,ctx=%s|%s" % (plc, d["ctx"], kind)
             what = "handler placement %s, throwing call in context `%s`: %s" % (d["pl"], G.CTX[d["ctx"]], kind)
-        else:
+        elif "native callback entered" in kind:
             key = "A|%s,pl=%s|%s" % (site.group, d["pl"], kind)
             what = "%s throw site, handler placement %s: %s" % (site.group, d["pl"], kind)
+        else:
+            key = "A|%s,pl=%s|%s" % (site.group, plc, kind)
+            what = "%s throw site, handler placement %s: %s" % (site.group, plc, kind)
         return key, what
     kind = _kind_b(exp, obs)
     if fam == "B":
